@@ -37,6 +37,7 @@ case "$FAKE_JAVA_MODE" in
   reject_arbitrary) printf '%s\n' "zzz arbitrary <&> ]]> diagnostic 42" >&2; printf 'no newline at end' >&2; exit 3 ;;
   killed_term) kill -15 $$ ;;
   corrupt_jar) echo "Error: Unable to access jarfile /some/where/ODK_Validate.jar" >&2; exit 1 ;;
+  corrupt_jar_after_notice) echo "Picked up JAVA_TOOL_OPTIONS: -Xmx64m" >&2; echo "Error: Unable to access jarfile /some/where/ODK_Validate.jar" >&2; exit 1 ;;
   killed) kill -9 $$ ;;
   *) exit 0 ;;
 esac
@@ -81,7 +82,8 @@ def msg_clean(message):
             and sum(1 for l in lines if "Problem at" in l) == 1 and "Result: Invalid" in message)
 
 
-CARRIED = {"reject_bytes": "yyy bytes diagnostic 43", "reject": "Problem at", "reject_rc2": "Problem at", "reject_arbitrary": "zzz arbitrary <&> ]]> diagnostic 42", "corrupt_jar": "Unable to access jarfile"}
+CARRIED = {"reject_bytes": "yyy bytes diagnostic 43", "reject": "Problem at", "reject_rc2": "Problem at", "reject_arbitrary": "zzz arbitrary <&> ]]> diagnostic 42", "corrupt_jar": "Unable to access jarfile /some/where/ODK_Validate.jar",
+           "corrupt_jar_after_notice": "Unable to access jarfile /some/where/ODK_Validate.jar"}
 
 
 def execute(cfg, repo):
